@@ -7,6 +7,7 @@ import (
 	"fmt"
 	"math/rand"
 	"os"
+	"strings"
 
 	"verif/harness/concrete"
 	"verif/harness/obs"
@@ -22,6 +23,7 @@ func dimsCmd(args []string) error {
 	out := fs.String("out", "", "ndjson of observation events")
 	tier := fs.String("tier", "quick", "quick|thorough")
 	seed := fs.Int64("seed", 1, "seed")
+	icc := fs.Bool("icc", false, "also emit the large / many-chunk ICC embeddings (C06)")
 	fs.Parse(args)
 	of, err := os.Create(*out)
 	if err != nil {
@@ -140,6 +142,44 @@ func dimsCmd(args []string) error {
 			if err := emit(f.fmtName, f.mk(o, v)); err != nil {
 				return err
 			}
+		}
+	}
+	// C06: profile sizes and chunk counts beyond the bounded grammar - 255 chunks in a seeded
+	// order among other segments, full-size (65519-byte) chunks, multi-MiB profiles
+	if *icc {
+		perm := rng.Perm(255)
+		var segs []string
+		for k, pi := range perm {
+			segs = append(segs, fmt.Sprintf(`{"t":"ICC","seq":%d,"total":255,"pid":%d}`, pi+1, 1000+pi+1))
+			if k%40 == 7 {
+				segs = append(segs, `{"t":"OTHER","kind":"app1"}`)
+			}
+			if k == 100 {
+				segs = append(segs, `{"t":"SOF","kind":2,"p":8,"h":33,"w":44,"nc":3}`)
+			}
+		}
+		if err := emit("jpeg", "["+strings.Join(segs, ",")+`,{"t":"SOS"}]`); err != nil {
+			return err
+		}
+		// the same with one chunk missing / duplicated: damaged
+		miss := append([]string{}, segs[:50]...)
+		miss = append(miss, segs[51:]...)
+		if err := emit("jpeg", "["+strings.Join(miss, ",")+`,{"t":"SOS"}]`); err != nil {
+			return err
+		}
+		// 9 full-size chunks (~590 KB) in reverse order
+		var big []string
+		for q := 9; q >= 1; q-- {
+			big = append(big, fmt.Sprintf(`{"t":"ICC","seq":%d,"total":9,"pid":%d}`, q, 100+q))
+		}
+		if err := emit("jpeg", `[{"t":"SOF","kind":0,"p":8,"h":3,"w":4,"nc":1},`+strings.Join(big, ",")+`,{"t":"SOS"}]`); err != nil {
+			return err
+		}
+		if err := emit("png", `[{"t":"IHDR","w":9,"h":8,"d":8,"ct":2,"il":0},{"t":"anc","size":"big"},{"t":"iCCP","name":79,"method":0,"z":"ok9","pid":8,"cross":true},{"t":"IDAT"},{"t":"IEND"}]`); err != nil {
+			return err
+		}
+		if err := emit("webp", `[{"t":"VP8X","iccf":true,"alpha":false,"exif":false,"xmp":false,"w":70000,"h":3},{"t":"ICCP","pid":8,"cross":true},{"t":"VP8","w":5,"h":6,"ws":0,"hs":0}]`); err != nil {
+			return err
 		}
 	}
 	fmt.Printf("{\"cases\":%d,\"events\":%d}\n", id, 2*id)
